@@ -189,14 +189,18 @@ func (r *recorder) WriteString(s string) (n int, err error) {
 // ReadFrom reads data from src until EOF or error. The return value n is the number of bytes read.
 // Any error except EOF encountered during the read is also returned.
 func (r *recorder) ReadFrom(src io.Reader) (n int64, err error) {
+	if r.hijacked {
+		return 0, http.ErrHijacked
+	}
+
+	if r.size == notWritten {
+		r.size = 0
+		r.ResponseWriter.WriteHeader(r.status)
+	}
+
 	if rf, ok := r.ResponseWriter.(io.ReaderFrom); ok {
 		n, err = rf.ReadFrom(src)
-		if err == nil {
-			if r.size == notWritten {
-				r.size = 0
-			}
-			r.size += int(n)
-		}
+		r.size += int(n)
 		return n, err
 	}
 
